@@ -10,13 +10,23 @@ Proof. exact (fun c => rest_no_ready_left sched_params c eq_refl). Qed.
 Print Assumptions C05_rest_no_ready_left.
 
 (* ---- worker processes: after every submit and every wait, no future is left pending while a worker slot is
-   free, i.e. the number of worker processes is min(max_workers, submitted and unfinished futures). *)
+   free, i.e. the number of worker processes is min(max_workers, submitted and unfinished futures) — for the
+   _start_processes and the wait() (queued futures are started on every poll) the source has now. *)
 Require Import LT.Model.Exec LT.Proofs.ExecProofs.
 Theorem C05_rest_workers_full : forall e o, List.length (running e) <= maxw e ->
   match o with
-  | XSubmit | XWait _ => pendq (exstep start_policy_src e o) <> [] ->
-                         List.length (running (exstep start_policy_src e o)) = maxw (exstep start_policy_src e o)
+  | XSubmit | XWait _ => pendq (exstep start_policy_src wait_policy_src e o) <> [] ->
+                         List.length (running (exstep start_policy_src wait_policy_src e o)) = maxw (exstep start_policy_src wait_policy_src e o)
   | _ => True
   end.
-Proof. exact (rest_full start_policy_src eq_refl). Qed.
+Proof. exact (rest_full start_policy_src eq_refl wait_policy_src eq_refl). Qed.
 Print Assumptions C05_rest_workers_full.
+
+(* The statement depends on wait() starting queued futures on every poll: for a wait() that does so only after receiving a
+   result it is false (a killed worker's slot stays idle). *)
+Theorem C05_wait_if_received_refuted :
+  exists e o, List.length (running e) <= maxw e /\
+    match o with XWait _ => pendq (exstep StartUpToMax WaitStartsIfReceived e o) <> [] /\
+                            List.length (running (exstep StartUpToMax WaitStartsIfReceived e o)) < maxw e | _ => False end.
+Proof. exact wait_if_received_refuted. Qed.
+Print Assumptions C05_wait_if_received_refuted.
